@@ -353,9 +353,18 @@ namespace {
         return o;
     }
 
-    octets le24plus( std::uint32_t v, int fourth )
+    // the number as four octets; `order` permutes them, because the order in which random_number16() / random_number32()
+    // draw their octets is the compiler's choice (both operands of `|` call the RNG)
+    octets le24plus( std::uint32_t v, int fourth, int order = 0 )
     {
-        return octets{ static_cast< std::uint8_t >( v ), static_cast< std::uint8_t >( v >> 8 ), static_cast< std::uint8_t >( v >> 16 ), static_cast< std::uint8_t >( fourth ) };
+        const octets le = { static_cast< std::uint8_t >( v ), static_cast< std::uint8_t >( v >> 8 ), static_cast< std::uint8_t >( v >> 16 ), static_cast< std::uint8_t >( fourth ) };
+        switch ( order & 3 )
+        {
+        default: return le;
+        case 1: return octets{ le[ 1 ], le[ 0 ], le[ 3 ], le[ 2 ] };
+        case 2: return octets{ le[ 2 ], le[ 3 ], le[ 0 ], le[ 1 ] };
+        case 3: return octets{ le[ 3 ], le[ 2 ], le[ 1 ], le[ 0 ] };
+        }
     }
 
     rc::Gen< Case > gen_case38()
@@ -379,16 +388,17 @@ namespace {
                      []( const std::tuple< int, int >& t ) { return octets( std::get< 1 >( t ), static_cast< std::uint8_t >( std::get< 0 >( t ) ) ); } ) },
             { 3, rc::gen::map( rc::gen::tuple( rc::gen::element( 999999u, 1000000u, 1000001u, 1048575u, 1048576u, 0xffffffu, 0xf423ffu, 0x0f4240u, 0x100000u, 0x7fffffu,
                                                     0x800000u, 65535u, 65536u ),
-                                    verif::range< int >( 0, 255 ), verif::range< int >( 3, 4 ) ),
+                                    verif::range< int >( 0, 255 ), verif::range< int >( 0, 4 ) ),
                      []( const std::tuple< std::uint32_t, int, int >& t ) {
-                         octets o = le24plus( std::get< 0 >( t ), std::get< 1 >( t ) );
-                         o.resize( std::get< 2 >( t ) );
+                         // 0: three octets, 1..4: four octets in one of the four plausible draw orders
+                         octets o = le24plus( std::get< 0 >( t ), std::get< 2 >( t ) == 0 ? 0 : ( std::get< 1 >( t ) & 0xf0 ), std::get< 2 >( t ) ? std::get< 2 >( t ) - 1 : 0 );
+                         o.resize( std::get< 2 >( t ) == 0 ? 3 : 4 );
                          return o;
                      } ) },
-            { 2, rc::gen::map( rc::gen::tuple( verif::range< std::uint32_t >( 999000u, 1050000u ), verif::range< int >( 0, 255 ), verif::range< int >( 3, 4 ) ),
+            { 2, rc::gen::map( rc::gen::tuple( verif::range< std::uint32_t >( 999000u, 1050000u ), verif::range< int >( 0, 255 ), verif::range< int >( 0, 4 ) ),
                      []( const std::tuple< std::uint32_t, int, int >& t ) {
-                         octets o = le24plus( std::get< 0 >( t ), std::get< 1 >( t ) );
-                         o.resize( std::get< 2 >( t ) );
+                         octets o = le24plus( std::get< 0 >( t ), std::get< 2 >( t ) == 0 ? 0 : ( std::get< 1 >( t ) & 0xf0 ), std::get< 2 >( t ) ? std::get< 2 >( t ) - 1 : 0 );
+                         o.resize( std::get< 2 >( t ) == 0 ? 3 : 4 );
                          return o;
                      } ) },
             { 2, rc::gen::mapcat( verif::range< int >( 1, 9 ), []( int n ) { return rbytes( n ); } ) },
@@ -654,9 +664,22 @@ namespace {
             rep.label_if( all_00, "pattern=all-00" );
             if ( c.pattern.size() >= 3 )
             {
-                const std::uint32_t v = c.pattern[ 0 ] | ( c.pattern[ 1 ] << 8 ) | ( c.pattern[ 2 ] << 16 );
-                rep.label_if( v >= 1000000u && v < 1048576u, "pattern=just-above-999999" );
-                rep.label_if( v == 999999u, "pattern=999999" );
+                // any of the four draw orders
+                bool above = false, limit = false, last = false;
+                for ( int order = 0; order != 4; ++order )
+                {
+                    octets p = c.pattern;
+                    p.resize( 4, 0 );
+                    const octets        q = le24plus( std::uint32_t( p[ 0 ] ) | ( std::uint32_t( p[ 1 ] ) << 8 ) | ( std::uint32_t( p[ 2 ] ) << 16 ), p[ 3 ], order );
+                    const std::uint32_t v = ( std::uint32_t( q[ 0 ] ) | ( std::uint32_t( q[ 1 ] ) << 8 ) | ( std::uint32_t( q[ 2 ] ) << 16 ) ) & 0xfffff;
+                    const std::uint32_t v24 = std::uint32_t( q[ 0 ] ) | ( std::uint32_t( q[ 1 ] ) << 8 ) | ( std::uint32_t( q[ 2 ] ) << 16 );
+                    above = above || ( v24 > 1000000u && v24 < 1048576u );
+                    limit = limit || v == 1000000u;
+                    last  = last || v24 == 999999u;
+                }
+                rep.label_if( above, "pattern=just-above-1000000" );
+                rep.label_if( limit, "pattern=1000000" );
+                rep.label_if( last, "pattern=999999" );
             }
         }
 
